@@ -1,19 +1,25 @@
 package main
 
-// Syntactic facts of http/handler.go and server.go (go/ast): which message types start a protocol,
-// which response types end a session, the window of encrypted TO2 messages, and the dispatch table of
-// the four Respond methods. Constants are resolved by executing the protocol package.
+// Facts of http/handler.go and server.go: which message types start a protocol, which response types end a session,
+// which requests are decrypted (all three observed by running the handler with recording stubs), and the dispatch
+// table of the four Respond methods (go/ast of server.go; constants resolved by executing the protocol package).
 
 import (
+	"bytes"
+	"context"
+	"crypto/rsa"
 	"fmt"
 	"go/ast"
 	"go/parser"
 	"go/token"
+	"io"
+	"net/http/httptest"
 	"os"
-	"sort"
 	"strconv"
 	"strings"
 
+	fdohttp "github.com/fido-device-onboard/go-fdo/http"
+	"github.com/fido-device-onboard/go-fdo/kex"
 	"github.com/fido-device-onboard/go-fdo/protocol"
 )
 
@@ -88,101 +94,113 @@ func funcDecl(f *ast.File, recv, name string) *ast.FuncDecl {
 	return nil
 }
 
+// ---- behavioural probes of http.Handler: what it *does* for each message and response type, whatever its source looks like ----
+
+type probeTokens struct{ newTok, invalid int }
+
+type probeCtxKey struct{}
+
+func (p *probeTokens) NewToken(context.Context, protocol.Protocol) (string, error) {
+	p.newTok++
+	return "probe-token", nil
+}
+func (p *probeTokens) InvalidateToken(context.Context) error { p.invalid++; return nil }
+func (p *probeTokens) TokenContext(ctx context.Context, tok string) context.Context {
+	return context.WithValue(ctx, probeCtxKey{}, tok)
+}
+func (p *probeTokens) TokenFromContext(ctx context.Context) (string, bool) {
+	s, ok := ctx.Value(probeCtxKey{}).(string)
+	return s, ok
+}
+
+type probeSession struct{}
+
+func (probeSession) Parameter(io.Reader, *rsa.PublicKey) ([]byte, error) { return nil, nil }
+func (probeSession) SetParameter([]byte, *rsa.PrivateKey) error          { return nil }
+func (probeSession) Encrypt(_ io.Reader, payload any) (any, error)       { return payload, nil }
+func (probeSession) Decrypt(_ io.Reader, r io.Reader) ([]byte, error)    { return io.ReadAll(r) }
+func (probeSession) Destroy()                                            {}
+
+type probeResponder struct {
+	respType            uint8
+	responded           int
+	cryptBeforeResponse int
+	handledError        int
+}
+
+func (p *probeResponder) Respond(ctx context.Context, msgType uint8, msg io.Reader) (uint8, any) {
+	p.responded++
+	return p.respType, nil
+}
+func (p *probeResponder) HandleError(context.Context, protocol.ErrorMessage) { p.handledError++ }
+func (p *probeResponder) CryptSession(context.Context) (kex.Session, error) {
+	if p.responded == 0 {
+		p.cryptBeforeResponse++
+	}
+	return probeSession{}, nil
+}
+
+func probeHandler(t int, respType uint8, withToken bool, body []byte) (*probeTokens, *probeResponder) {
+	pt, pr := &probeTokens{}, &probeResponder{respType: respType}
+	h := fdohttp.Handler{Tokens: pt, DIResponder: pr, TO0Responder: pr, TO1Responder: pr, TO2Responder: pr}
+	req := httptest.NewRequest("POST", "/fdo/101/msg/"+strconv.Itoa(t), bytes.NewReader(body))
+	req.Header.Set("Content-Type", "application/cbor")
+	if withToken {
+		req.Header.Set("Authorization", "Bearer probe-token")
+	}
+	func() {
+		defer func() { _ = recover() }()
+		h.ServeHTTP(httptest.NewRecorder(), req)
+	}()
+	return pt, pr
+}
+
 func genHandler() {
 	out := newFile("Handler.lean", "Fdo.Gen.Handler")
-	hf := parseRepoFile("http/handler.go")
+	out.p("/-! The first four tables are *observed*: the extractor runs http.Handler.ServeHTTP with recording token service and")
+	out.p("responders for every message type and every response type (so a refactoring of handler.go that keeps its behaviour")
+	out.p("keeps these tables). The dispatch table of the Respond methods is read from the source of server.go. -/")
 
-	// isProtocolStart = msgType == N
+	// a request without a session for which the handler issues a new token
 	var starts []int
-	if fd := funcDecl(hf, "Handler", "ServeHTTP"); fd != nil {
-		ast.Inspect(fd, func(n ast.Node) bool {
-			as, ok := n.(*ast.AssignStmt)
-			if !ok || len(as.Lhs) != 1 || len(as.Rhs) != 1 {
-				return true
-			}
-			if id, ok := as.Lhs[0].(*ast.Ident); !ok || id.Name != "isProtocolStart" {
-				return true
-			}
-			if be, ok := as.Rhs[0].(*ast.BinaryExpr); ok && be.Op == token.EQL {
-				if v, ok := constVal(be.Y); ok {
-					starts = append(starts, v)
-				}
-			}
-			return true
-		})
+	for t := 0; t <= 255; t++ {
+		if pt, _ := probeHandler(t, 0, false, []byte{0x80}); pt.newTok > 0 {
+			starts = append(starts, t)
+		}
 	}
-	sort.Ints(starts)
-	out.p("/-- message types for which ServeHTTP sets isProtocolStart (a new token is issued) -/")
+	out.p("/-- message types for which ServeHTTP issues a new token (protocol starts) -/")
 	out.p("def startTypes : List Nat := %s", natList(starts))
 
-	// writeResponse: switch respType { case …: h.invalidateToken(ctx) } and the error branch
+	// response types after which the token is invalidated (request 12, DI.SetHMAC: in a session, outside the tunnel)
 	var finals []int
 	errInvalidates := false
-	if fd := funcDecl(hf, "Handler", "writeResponse"); fd != nil {
-		ast.Inspect(fd, func(n ast.Node) bool {
-			switch s := n.(type) {
-			case *ast.SwitchStmt:
-				if id, ok := s.Tag.(*ast.Ident); ok && id.Name == "respType" {
-					for _, c := range s.Body.List {
-						cc := c.(*ast.CaseClause)
-						if containsCall(cc, "invalidateToken") || containsCall(cc, "InvalidateToken") {
-							for _, e := range cc.List {
-								if v, ok := constVal(e); ok {
-									finals = append(finals, v)
-								}
-							}
-						}
-					}
-				}
-			case *ast.IfStmt:
-				if be, ok := s.Cond.(*ast.BinaryExpr); ok && be.Op == token.EQL {
-					if id, ok := be.X.(*ast.Ident); ok && id.Name == "respType" {
-						if v, ok := constVal(be.Y); ok && v == 255 && (containsCall(s.Body, "InvalidateToken") || containsCall(s.Body, "invalidateToken")) {
-							errInvalidates = true
-						}
-					}
-				}
+	for r := 0; r <= 255; r++ {
+		pt, pr := probeHandler(12, uint8(r), true, []byte{0x80})
+		if pr.responded == 0 {
+			continue
+		}
+		if pt.invalid > 0 {
+			if r == 255 {
+				errInvalidates = true
+			} else {
+				finals = append(finals, r)
 			}
-			return true
-		})
+		}
 	}
-	sort.Ints(finals)
-	out.p("/-- response types after which writeResponse invalidates the token -/")
+	out.p("/-- response types after which the handler invalidates the token -/")
 	out.p("def finalResponses : List Nat := %s", natList(finals))
-	out.p("/-- writeResponse invalidates the token when the responder answers with an error message -/")
+	out.p("/-- the handler invalidates the token when the responder answers with an error message -/")
 	out.p("def errorInvalidates : Bool := %v", errInvalidates)
 
-	// handleRequest: lo < msgType && msgType < hi  ⇒ decrypt
-	lo, hi := -1, -1
-	if fd := funcDecl(hf, "Handler", "handleRequest"); fd != nil {
-		ast.Inspect(fd, func(n ast.Node) bool {
-			is, ok := n.(*ast.IfStmt)
-			if !ok || lo >= 0 {
-				return true
-			}
-			be, ok := is.Cond.(*ast.BinaryExpr)
-			if !ok || be.Op != token.LAND {
-				return true
-			}
-			l, ok1 := be.X.(*ast.BinaryExpr)
-			r, ok2 := be.Y.(*ast.BinaryExpr)
-			if !ok1 || !ok2 || l.Op != token.LSS || r.Op != token.LSS {
-				return true
-			}
-			if id, ok := l.Y.(*ast.Ident); !ok || id.Name != "msgType" {
-				return true
-			}
-			if a, ok := constVal(l.X); ok {
-				if b, ok := constVal(r.Y); ok {
-					lo, hi = a, b
-				}
-			}
-			return true
-		})
+	// request types whose body is taken through the session's Decrypt before the responder sees it
+	var decrypts []int
+	for t := 0; t <= 255; t++ {
+		if _, pr := probeHandler(t, 0, true, []byte{0x80}); pr.cryptBeforeResponse > 0 {
+			decrypts = append(decrypts, t)
+		}
 	}
-	out.p("/-- handleRequest decrypts requests with decryptAbove < msgType < decryptBelow -/")
-	out.p("def decryptAbove : Nat := %d", max(lo, 0))
-	out.p("def decryptBelow : Nat := %d", max(hi, 0))
+	out.p("/-- message types whose request body goes through CryptSession().Decrypt before Respond -/")
+	out.p("def decryptTypes : List Nat := %s", natList(decrypts))
 
 	// Respond dispatch tables of the four servers: (server, request type, response type, method)
 	sf := parseRepoFile("server.go")
